@@ -104,12 +104,15 @@ let listing_a (d : W.adir) =
                         (string_of_n f.W.a_count) (entries_out f.W.a_entries))) (sort_by_name d))
 
 let no_faults = { W.f_io = (fun _ -> W.IoOk); f_del_ok = (fun _ -> true) }
+(* RLIMIT_FSIZE = 0 on the real side: every archive write fails after the file was created *)
+let starved = { W.f_io = (fun _ -> W.IoFailLate); f_del_ok = (fun _ -> true) }
 
 let run_case (t : string list) : string =
   match t with
   | _ :: mode :: cmds ->
       let wal = ref [] and xwal = ref [] and use_x = ref false and root = ref W.RMissing in
       let obs = ref [] in
+      let fl = ref no_faults in
       let adir () = match !root with W.RDir d -> d | _ -> [] in
       Stdlib.List.iter (fun c ->
           if c = "XD" then use_x := true
@@ -132,17 +135,18 @@ let run_case (t : string list) : string =
             | ["AR"; n] ->
                 let nb = bytes_of_hex n in
                 (match !root with W.RDir d -> root := W.RDir (Stdlib.List.filter (fun (n', _) -> n' <> nb) d) | _ -> ())
+            | ["F"; v] -> fl := (if v = "0" then starved else no_faults)
             | ["W"; v] -> wal := wput !wal v
             | ["X"; v] -> xwal := wput !xwal v
             | ["C"; k] ->
                 let w = { W.w_wal = !wal; w_cwal = (if !use_x then Some !xwal else None); w_root = !root } in
-                let (w', _) = W.cleanup_up_to (mode = "c") no_faults w (n_of_string k) in
+                let (w', _) = W.cleanup_up_to (mode = "c") !fl w (n_of_string k) in
                 wal := w'.W.w_wal;
                 (match w'.W.w_cwal with Some d -> xwal := d | None -> ());
                 root := w'.W.w_root;
                 obs := (if !use_x then "C:" ^ listing_w !wal ^ "/" ^ listing_w !xwal else "C:" ^ listing_w !wal) :: !obs
             | ["L"; id] ->
-                let (r', res) = W.archive_log no_faults.W.f_io !wal !root (n_of_string id) in
+                let (r', res) = W.archive_log !fl.W.f_io !wal !root (n_of_string id) in
                 root := r';
                 obs := (match res with Some n -> "L:ok:" ^ hex_of_bytes n | None -> "L:err") :: !obs
             | _ -> failwith "cmd") cmds;
